@@ -67,6 +67,9 @@ type fakeStream struct {
 
 func (f *fakeStream) Context() context.Context { return f.ctx }
 func (f *fakeStream) Send(r *spyv1.SubscribeSignedVAAResponse) error {
+	// like a gRPC stream, the message is serialised when Send is entered: what happens to the caller's buffer
+	// afterwards does not reach the client
+	vaaBytes := append([]byte{}, r.VaaBytes...)
 	f.mu.Lock()
 	g := f.gate
 	f.mu.Unlock()
@@ -79,7 +82,7 @@ func (f *fakeStream) Send(r *spyv1.SubscribeSignedVAAResponse) error {
 		time.Sleep(30 * time.Microsecond)
 	}
 	f.mu.Lock()
-	f.got = append(f.got, r.VaaBytes)
+	f.got = append(f.got, vaaBytes)
 	f.mu.Unlock()
 	return nil
 }
@@ -360,14 +363,14 @@ func collapsed(f *fakeStream) int { return len(collapse(f)) }
 
 func genC20(t *rapid.T) c20Case {
 	fg := rapid.Custom(func(t *rapid.T) c20Filter {
-		return c20Filter{Chain: rapid.SampledFrom([]uint16{1, 2, 255}).Draw(t, "chain"), Addr: rapid.IntRange(0, 2).Draw(t, "addr")}
+		return c20Filter{Chain: rapid.SampledFrom([]uint16{1, 2, 255, 257, 10001}).Draw(t, "chain"), Addr: rapid.IntRange(0, 2).Draw(t, "addr")}
 	})
 	op := rapid.Custom(func(t *rapid.T) c20Op {
 		switch rapid.SampledFrom([]string{"subscribe", "publish", "publish", "publish", "publish", "stall", "resume", "disconnect", "burst"}).Draw(t, "k") {
 		case "subscribe":
 			return c20Op{K: "subscribe", Filters: rapid.SliceOfN(fg, 0, 3).Draw(t, "filters"), Slow: rapid.IntRange(0, 2).Draw(t, "slow") == 0}
 		case "burst":
-			return c20Op{K: "burst", Chain: rapid.SampledFrom([]uint16{1, 2, 255}).Draw(t, "chain"), Addr: rapid.IntRange(0, 2).Draw(t, "addr"), N: rapid.SampledFrom([]int{3, 20, 60, 150}).Draw(t, "n")}
+			return c20Op{K: "burst", Chain: rapid.SampledFrom([]uint16{1, 2, 255, 257}).Draw(t, "chain"), Addr: rapid.IntRange(0, 2).Draw(t, "addr"), N: rapid.SampledFrom([]int{3, 20, 60, 150}).Draw(t, "n")}
 		case "stall":
 			return c20Op{K: "stall", Sub: rapid.IntRange(0, 5).Draw(t, "sub")}
 		case "resume":
@@ -375,7 +378,7 @@ func genC20(t *rapid.T) c20Case {
 		case "disconnect":
 			return c20Op{K: "disconnect", Sub: rapid.IntRange(0, 5).Draw(t, "sub")}
 		}
-		return c20Op{K: "publish", Chain: rapid.SampledFrom([]uint16{1, 2, 255, 0}).Draw(t, "chain"), Addr: rapid.IntRange(-1, 2).Draw(t, "addr"), Bad: rapid.IntRange(0, 9).Draw(t, "bad") == 0}
+		return c20Op{K: "publish", Chain: rapid.SampledFrom([]uint16{1, 2, 255, 0, 257, 10001, 17}).Draw(t, "chain"), Addr: rapid.IntRange(-1, 2).Draw(t, "addr"), Bad: rapid.IntRange(0, 9).Draw(t, "bad") == 0}
 	})
 	c := c20Case{Ops: []c20Op{{K: "subscribe", Filters: rapid.SliceOfN(fg, 0, 2).Draw(t, "f0")}}}
 	c.Ops = append(c.Ops, rapid.SliceOfN(op, 2, 40).Draw(t, "ops")...)
